@@ -15,11 +15,13 @@ import (
 	"crypto/sha256"
 	"encoding/binary"
 	"encoding/hex"
+	"encoding/pem"
 	"fmt"
 	"math"
 	"math/big"
 	"sort"
 	"strings"
+	"sync"
 	"time"
 
 	"pgregory.net/rapid"
@@ -52,6 +54,7 @@ type ExtC struct {
 	V    int // variant selector (meaning depends on Kind)
 	N    int // size selector: value length for unk, key-id length for ski/aki, element count otherwise
 	Arc  int // unk: selects the OID
+	Arcs []int // unk (when Arc is not one of the fixed awkward OIDs): private arcs below 1.3.6.1.4.1, 1-5 base-128 digits each
 }
 
 // UIDC is a UniqueIdentifier BIT STRING.
@@ -207,6 +210,24 @@ var leafKinds = []string{"p256", "p256", "p384", "p521", "p224", "rsa2048", "rsa
 var issuerKinds = []string{"p256", "p256", "p256", "p384", "rsa2048", "rsa2048", "ed25519", "rsa3072", "p521"}
 var extKinds = []string{"bc", "ku", "eku", "san", "ski", "aki", "pol", "aia", "crldp"}
 
+var arcBounds = []int{0, 1, 127, 128, 16383, 16384, 1<<21 - 1, 1 << 21, 1<<28 - 1, 1 << 28, 1<<31 - 1}
+
+// genArc draws an OID arc of 1..5 base-128 digits, biased to the digit-count boundaries.
+func genArc(t *rapid.T, label string) int {
+	if rapid.IntRange(0, 2).Draw(t, label+"bound") == 0 {
+		return arcBounds[rapid.IntRange(0, len(arcBounds)-1).Draw(t, label+"b")]
+	}
+	d := rapid.IntRange(1, 5).Draw(t, label+"digits")
+	lo, hi := 1<<uint(7*(d-1)), 1<<uint(7*d)-1
+	if d == 1 {
+		lo = 0
+	}
+	if d == 5 {
+		hi = 1<<31 - 1
+	}
+	return rapid.IntRange(lo, hi).Draw(t, label+"v")
+}
+
 func genExts(t *rapid.T) []ExtC {
 	n := rapid.IntRange(0, 8).Draw(t, "nexts")
 	// a permutation of the nine known kinds; unknown OIDs are interleaved with distinct arcs
@@ -214,7 +235,14 @@ func genExts(t *rapid.T) []ExtC {
 	var out []ExtC
 	ki := 0
 	usedArc := map[int]bool{}
+	quoted := false
 	for len(out) < n {
+		if !quoted && rapid.IntRange(0, 9).Draw(t, "quote") == 0 {
+			// a private extension whose value quotes ANOTHER certificate (with another SCT list) as PEM text
+			quoted = true
+			out = append(out, ExtC{Kind: "quote", Crit: false, V: rapid.IntRange(0, 2).Draw(t, "quotev")})
+			continue
+		}
 		if rapid.IntRange(0, 3).Draw(t, "unk") == 0 || ki >= len(perm) {
 			arc := rapid.IntRange(0, 400).Draw(t, "arc")
 			if rapid.IntRange(0, 2).Draw(t, "arcodd") == 0 {
@@ -235,7 +263,13 @@ func genExts(t *rapid.T) []ExtC {
 			default:
 				ln = rapid.IntRange(0, 60).Draw(t, "unklen")
 			}
-			out = append(out, ExtC{Kind: "unk", Crit: rapid.Bool().Draw(t, "crit"), Arc: arc, N: ln, V: rapid.IntRange(0, 255).Draw(t, "unkv")})
+			var arcs []int
+			if arc >= len(nearCT) {
+				for i, na := 0, rapid.IntRange(1, 2).Draw(t, "narcs"); i < na; i++ {
+					arcs = append(arcs, genArc(t, "oidarc"))
+				}
+			}
+			out = append(out, ExtC{Kind: "unk", Crit: rapid.Bool().Draw(t, "crit"), Arc: arc, Arcs: arcs, N: ln, V: rapid.IntRange(0, 255).Draw(t, "unkv")})
 			continue
 		}
 		out = append(out, ExtC{Kind: perm[ki], Crit: rapid.Bool().Draw(t, "crit"), V: rapid.IntRange(0, 1<<16).Draw(t, "v"), N: rapid.IntRange(0, 40).Draw(t, "n")})
@@ -500,6 +534,29 @@ func akiValue(style int, seed string, n int) []byte {
 	}
 }
 
+var (
+	quoteOnce sync.Once
+	quoteText string
+)
+
+// quotedPEM is the PEM form of an unrelated certificate that carries an SCT list of its own (one SCT that
+// occurs in no generated list).
+func quotedPEM() string {
+	quoteOnce.Do(func() {
+		k := keys.Pick("p256", 2)
+		inner := mustSCT(&rfc6962.SCT{LogID: logID(1000), Timestamp: 424242, Signature: rfc6962.DigitallySigned{Hash: 4, Sig: 3, Signature: det("quoted-sig", 70)}})
+		l, err := rfc6962.EncodeSCTList([][]byte{inner})
+		if err != nil {
+			panic(err)
+		}
+		t := pki.LeafTemplate("quoted", k, 77, nil)
+		t.Exts = append(t.Exts, pki.SCTList(l))
+		c := pki.Issue(nil, t, "quoted")
+		quoteText = string(pem.EncodeToMemory(&pem.Block{Type: "CERTIFICATE", Bytes: c.DER}))
+	})
+	return quoteText
+}
+
 func extOf(e ExtC, idx int) pki.Ext {
 	seed := fmt.Sprintf("%s/%d/%d/%d", e.Kind, e.V, e.N, idx)
 	var x pki.Ext
@@ -582,10 +639,23 @@ func extOf(e ExtC, idx int) pki.Ext {
 			body = append(body, derx.Seq(derx.TLV(0xa0, derx.TLV(0xa0, uri))))
 		}
 		x = pki.Ext{OID: pki.OIDExtCRLDP, Value: derx.Seq(body...)}
+	case "quote":
+		txt := quotedPEM()
+		switch e.V % 3 {
+		case 0:
+			x = pki.Ext{OID: []int{1, 3, 6, 1, 4, 1, 99999, 9, 1}, Value: []byte(txt)}
+		case 1:
+			x = pki.Ext{OID: []int{1, 3, 6, 1, 4, 1, 99999, 9, 1}, Value: []byte("issued in place of:\n" + txt)}
+		default:
+			x = pki.Ext{OID: []int{1, 3, 6, 1, 4, 1, 99999, 9, 1}, Value: derx.Str(derx.TagUTF8String, "see also\n"+txt+"(end)\n")}
+		}
 	default: // unk
 		var oid []int
 		if e.Arc < len(nearCT) {
 			oid = nearCT[e.Arc]
+		} else if len(e.Arcs) > 0 {
+			// distinct per position so that no two private extensions share an OID
+			oid = append(append([]int{1, 3, 6, 1, 4, 1}, e.Arcs...), idx)
 		} else {
 			oid = []int{1, 3, 6, 1, 4, 1, 99999, 3, e.Arc * 37}
 		}
@@ -1093,6 +1163,22 @@ func (w *World) classify(c *Case, v *harness.Verdict) {
 	}
 	if len(c.Subject) == 0 {
 		v.Class("subject-empty")
+	}
+	maxDigits := 0
+	for _, e := range c.Exts {
+		if e.Kind == "quote" {
+			v.Class("quotes-pem-certificate")
+		}
+		for _, a := range e.Arcs {
+			d := 1
+			for x := a >> 7; x > 0; x >>= 7 {
+				d++
+			}
+			maxDigits = max(maxDigits, d)
+		}
+	}
+	if maxDigits > 0 {
+		v.Class(fmt.Sprintf("private-oid-arc-digits=%d", maxDigits))
 	}
 	near, odd, crit := false, false, false
 	for _, e := range c.Exts {
